@@ -287,34 +287,64 @@ def run(chk, prog):
     chk.analysed(function=adv["full"])
     init = {("m", "_minimum_timestep"): "P", ("m", "_maximum_timestep"): "P", ("m", "_current_time"): "T"}
     g, ex, dom = analyse(adv, init)
+    # a const local `new_time = _current_time + step` that is then stored (`_current_time = new_time`) is the same update
+    sum_alias = {}
+    for node in g.nodes:
+        if node.kind == "decl":
+            for d in node.ast["d"]:
+                ie = C.strip_casts(d["init"]) if d.get("init") is not None else None
+                if ie is not None and ie.get("k") == "Bin" and ie["op"] == "+" and (d.get("t") or "").startswith("const "):
+                    for p2, q2 in ((ie["a"], ie["b"]), (ie["b"], ie["a"])):
+                        if C.member_name(p2) == "_current_time" and dom.key(q2) is not None:
+                            sum_alias[("l", d["id"], d["n"])] = (dom.key(q2), node)
     adds = []
     for node in g.nodes:
         if node.kind == "stmt" and node.ast.get("k") == "Bin" and C.member_name(node.ast["a"]) == "_current_time":
             adds.append(node)
+
+    def add_step(node):
+        """Key of the step that the write `node` adds to the time, and the node at which the sum is formed."""
+        if node.ast["op"] == "+=":
+            return dom.key(node.ast["b"]), node
+        if node.ast["op"] == "=":
+            k = dom.key(node.ast["b"])
+            if k in sum_alias:
+                return sum_alias[k]
+            ie = C.strip_casts(node.ast["b"])
+            if ie.get("k") == "Bin" and ie["op"] == "+":
+                for p2, q2 in ((ie["a"], ie["b"]), (ie["b"], ie["a"])):
+                    if C.member_name(p2) == "_current_time" and dom.key(q2) is not None:
+                        return dom.key(q2), node
+        return None, None
     n += 1
-    chk.require(len(adds) == 1 and adds[0].ast["op"] == "+=", "T2",
-                "advance() moves time by exactly one `_current_time += step`", where(adv),
-                "%d writes of _current_time in advance()" % len(adds), function=adv["full"],
-                construct="single time update")
+    okadd = len(adds) == 1 and add_step(adds[0])[0] is not None
+    chk.require(okadd, "T2", "advance() moves time by exactly one `_current_time += step`", where(adv),
+                "%d writes of _current_time in advance()%s" % (len(adds), "" if len(adds) != 1 else
+                                                                ": `%s` is not time + step" % C.pretty(adds[0].ast)),
+                function=adv["full"], construct="single time update")
     step_key = None
-    if adds and adds[0].ast["op"] == "+=":
+    time_alias = set()
+    if okadd:
         node = adds[0]
-        step_key = dom.key(node.ast["b"])
-        for st in ex.at.get(node.id, ()):
-            vals, facts = st
-            v = dict(vals).get(step_key, "T")
-            n += 1
-            chk.require(v in ("P", "P2"), "T1", "the step added to the time is a power of two >= 1", where(node.ast, adv),
-                        "on the path through lines %s the step is %s when it is added" %
-                        (ex.path_lines(node.id, st), v), function=adv["full"], construct="step typestate")
-            rem = [f for f in facts if f[0] == "remaining" and f[2] == 2 ** 63]
-            divs = [f for f in facts if f[0] == "div" and f[2] == step_key and any(f[1] == r[1] for r in rem)]
-            n += 1
-            chk.require(bool(divs), "T2", "the step divides the time remaining when it is added", where(node.ast, adv),
-                        "on the path through lines %s the addition is not dominated by the exit of a loop/test "
-                        "`(2^63 - _current_time) %% step == 0` with step and time unchanged since: the time line can "
-                        "overshoot or miss the end time" % ex.path_lines(node.id, st), function=adv["full"],
-                        construct="divisibility before update")
+        step_key, sum_node = add_step(node)
+        if node.ast["op"] == "=" and dom.key(node.ast["b"]) in sum_alias:
+            time_alias.add(dom.key(node.ast["b"]))
+        for chk_node in ([node] if sum_node is node else [sum_node, node]):
+            for st in ex.at.get(chk_node.id, ()):
+                vals, facts = st
+                v = dict(vals).get(step_key, "T")
+                n += 1
+                chk.require(v in ("P", "P2"), "T1", "the step added to the time is a power of two >= 1", where(node.ast, adv),
+                            "on the path through lines %s the step is %s when it is added" %
+                            (ex.path_lines(chk_node.id, st), v), function=adv["full"], construct="step typestate")
+                rem = [f for f in facts if f[0] == "remaining" and f[2] == 2 ** 63]
+                divs = [f for f in facts if f[0] == "div" and f[2] == step_key and any(f[1] == r[1] for r in rem)]
+                n += 1
+                chk.require(bool(divs), "T2", "the step divides the time remaining when it is added", where(node.ast, adv),
+                            "on the path through lines %s the addition is not dominated by the exit of a loop/test "
+                            "`(2^63 - _current_time) %% step == 0` with step and time unchanged since: the time line can "
+                            "overshoot or miss the end time" % ex.path_lines(chk_node.id, st), function=adv["full"],
+                            construct="divisibility before update")
     # ---- T3 modulus by possibly zero ---------------------------------------------------------
     for node in g.nodes:
         if node.ast is None or node.kind == "marker" or node.ast.get("k") in ("Abort",):
@@ -368,8 +398,8 @@ def run(chk, prog):
             if b2 is True:
                 return a2
             return None
-        if e.get("k") == "Bin" and e["op"] == "<" and C.member_name(e["a"]) == "_current_time" and \
-                C.const_int(e["b"]) == 2 ** 63:
+        if e.get("k") == "Bin" and e["op"] == "<" and (C.member_name(e["a"]) == "_current_time" or
+                                                      dom.key(e["a"]) in time_alias) and C.const_int(e["b"]) == 2 ** 63:
             return "lt_end"
         return None
     ret_nodes = [nd for nd in g.nodes if nd.kind == "return" and nd.ast.get("x") is not None]
@@ -422,7 +452,8 @@ def run(chk, prog):
                     "the reported step is the image of the integer step that was added", where(adv),
                     "reported step is %s" % C.pretty(so), function=adv["full"], construct="reported step")
         n += 1
-        chk.require(C.is_call(to, name="to_physical_time") and C.member_name(to["a"][0]) == "_current_time", "T5",
+        chk.require(C.is_call(to, name="to_physical_time") and (C.member_name(to["a"][0]) == "_current_time" or
+                                                                 dom.key(to["a"][0]) in time_alias), "T5",
                     "the reported time is the image of the updated integer time", where(adv),
                     "reported time is %s" % C.pretty(to), function=adv["full"], construct="reported time")
         okr = True
